@@ -170,6 +170,20 @@ func explain(o *Obligation, out string) {
 		fmt.Println("             model:", err, strings.SplitN(raw, "\n", 2)[0])
 		return
 	}
+	// which conjuncts of the proposition are false in the model?
+	if o.Prop.Op == "and" {
+		var cps []probe
+		for i, cj := range o.Prop.Args {
+			cps = append(cps, probe{Label: fmt.Sprintf("conjunct %d: %s", i, trunc(cj.String(), 300)), T: cj, Idx: -1})
+		}
+		if cv, _, err := o.GetValues(cps, 20, filepath.Join(out, fileSafe(o.Name)+".conj.smt2")); err == nil {
+			for _, cp := range cps {
+				if cv[cp.Label] == "false" {
+					fmt.Println("               FALSE", cp.Label)
+				}
+			}
+		}
+	}
 	for _, p := range liveProbes(probes, vals) {
 		v := vals[p.Label]
 		if v == "" || v == "0" || v == "false" || v == "(mkref 0 pnil)" || v == "\"\"" || strings.HasPrefix(v, "(mkslice (mkref 0 pnil)") {
@@ -177,4 +191,11 @@ func explain(o *Obligation, out string) {
 		}
 		fmt.Printf("               %s = %s\n", p.Label, v)
 	}
+}
+
+func trunc(s string, n int) string {
+	if len(s) > n {
+		return s[:n] + "..."
+	}
+	return s
 }
